@@ -902,9 +902,9 @@ func TestC19Batch(t *testing.T) {
 	for _, name := range instNames {
 		name := name
 		t.Run(name, func(t *testing.T) {
-			n := vlib.N(1000, 6000)
+			n := vlib.N(1000, 1500)
 			if name == "count" {
-				n = vlib.N(1500, 9000)
+				n = vlib.N(1500, 2500)
 			}
 			vlib.Check(t, n, func(t *rapid.T) {
 				batchProperty(t, name, drawShares(t), vlib.Thorough() && pick(t, 6, "big") == 0, 8)
@@ -963,7 +963,7 @@ func TestC19Constructors(t *testing.T) {
 			vlib.Report(rt, "C19/constructor/"+inst+"/"+short, detail)
 		}
 	}
-	vlib.Check(t, vlib.N(1500, 10000), func(rt *rapid.T) {
+	vlib.Check(t, vlib.N(1500, 3000), func(rt *rapid.T) {
 		ctx := drawCtx(rt)
 		inst := pickFrom(rt, instNames, "inst")
 		kinds := []string{"shares-lt2"}
